@@ -551,12 +551,189 @@ class Hist:
         return " ".join(self.cmds)
 
 
+# ---------------------------------------------------------------- cross-order cases (harness: xorder)
+XV = 4   # variables x0..x3 take part in the cross-order cases
+
+
+def x_orders(rng, used):
+    """orders as digit strings: the default, its reverse, permutations that disagree with the ids, partial lists
+    (only some of the polynomial's variables listed, or only foreign ones), nothing listed"""
+    used = sorted(set(used)) or [0]
+    allv = list(range(XV + 1))
+    out = ["".join(map(str, allv)), "".join(map(str, reversed(allv)))]
+    out.append("".join(map(str, reversed(used))))
+    for _ in range(rng.randint(2, 4)):
+        k = rng.random()
+        if k < 0.3:
+            p = allv[:]
+            rng.shuffle(p)
+        elif k < 0.55:
+            p = rng.sample(used, rng.randint(1, len(used)))
+        elif k < 0.7:
+            p = rng.sample(allv, rng.randint(1, len(allv)))
+        elif k < 0.8:
+            p = [v for v in allv if v not in used]
+            rng.shuffle(p)
+        elif k < 0.9:
+            p = used[:]
+            rng.shuffle(p)
+            p = p + [v for v in allv if v not in used][:rng.randint(0, 2)]
+        else:
+            p = []
+        out.append("".join(map(str, p)) or "-")
+    if rng.random() < 0.5:
+        out.append("-")
+    rng.shuffle(out)
+    return out
+
+
+def x_mono(rng, vs, maxdeg=2):
+    k = rng.randint(0, min(2, len(vs)))
+    return tuple((v, rng.randint(1, maxdeg)) for v in sorted(rng.sample(vs, k)))
+
+
+def x_poly(rng, vs, nterms=None, maxdeg=2):
+    n = nterms or rng.choice([1, 2, 2, 3])
+    d = {}
+    for _ in range(n):
+        d[x_mono(rng, vs, maxdeg)] = rng.choice([1, -1, 1, 2, -2, 3, -3, 5])
+    return p_norm(d)
+
+
+def val_rational(rng):
+    k = rng.random()
+    if k < 0.45:
+        return "z:%d" % rng.choice([0, 1, -1, 2, -2, 3, 5, -7])
+    if k < 0.75:
+        from math import gcd
+        while True:
+            n, d = rng.randint(-9, 9), rng.choice([2, 3, 4, 5, 7, 10])
+            if n != 0 and gcd(n, d) == 1:
+                return "q:%d/%d" % (n, d)
+    a = rng.choice([1, -1, 3, -3, 5, 7, -9])
+    return "d:%d/%d" % (a, rng.choice([1, 2, 3]))
+
+
+def val_algebraic(rng):
+    k = rng.random()
+    n = rng.choice([2, 3, 5, 6, 7])
+    if k < 0.5:
+        return "r:%d,0,1:%d" % (-n, rng.choice([0, 1]))          # -sqrt n / sqrt n
+    if k < 0.75:
+        return "r:%d,0,0,1:0" % (-n)                             # cube root
+    return "r:-1,-1,1:%d" % rng.choice([0, 1])                   # golden ratio and its conjugate
+
+
+def x_vals(rng, used, algebraic=1, unassigned=None):
+    vals = []
+    alg_left = algebraic
+    for v in range(XV + 1):
+        if v == unassigned:
+            vals.append("none")
+        elif v in used and alg_left > 0 and rng.random() < 0.6:
+            vals.append(val_algebraic(rng))
+            alg_left -= 1
+        elif v in used or rng.random() < 0.3:
+            vals.append(val_rational(rng))
+        else:
+            vals.append("none")
+    return vals
+
+
+def xcase(op, a, b, orders, vals=()):
+    return "xorder %s %s %s %d %s%s" % (op, p_text(a), "-" if b is None else p_text(b), len(orders), " ".join(orders),
+                                        (" " + " ".join(vals)) if vals else "")
+
+
+def gen_xorder(rng):
+    vs = list(range(XV))
+    k = rng.random()
+    if k < 0.3:
+        # gcd / lcm: a common factor (often a monomial), cofactors over DIFFERENT variable sets
+        g = {x_mono(rng, vs): rng.choice([1, 1, 2, -3])} if rng.random() < 0.5 else x_poly(rng, vs, rng.choice([1, 2]))
+        v1 = rng.sample(vs, rng.randint(1, 2))
+        v2 = rng.sample(vs, rng.randint(1, 2))
+        h1, h2 = x_poly(rng, v1, rng.choice([1, 2]), 1), x_poly(rng, v2, rng.choice([1, 2]), 2)
+        if rng.random() < 0.15:
+            h2 = {}
+        a, b = p_mul(g, h1), p_mul(g, h2)
+        if rng.random() < 0.5:
+            a, b = b, a
+        return xcase("gl", a, b, x_orders(rng, p_vars(a) + p_vars(b)))
+    if k < 0.4:
+        a, b = x_poly(rng, rng.sample(vs, 2)), x_poly(rng, rng.sample(vs, 2))
+        return xcase("ar", a, b, x_orders(rng, p_vars(a) + p_vars(b)))
+    if k < 0.55:
+        sh = rng.sample(vs, 2)
+        a = p_add(x_poly(rng, sh, 2), x_poly(rng, vs, 1))
+        b = p_add(x_poly(rng, sh, 2), x_poly(rng, rng.sample(vs, 1), 1, 1))
+        return xcase("rp", a, b, x_orders(rng, p_vars(a) + p_vars(b)))
+    if k < 0.7:
+        c = x_poly(rng, rng.sample(vs, rng.randint(1, 2)), rng.choice([1, 1, 2]), 1)
+        a = p_mul(c, x_poly(rng, vs, rng.choice([2, 3])))
+        if rng.random() < 0.05:
+            a = {}
+        return xcase("cpd", a, None, x_orders(rng, p_vars(a)))
+    if k < 0.9:
+        return gen_sgn(rng)
+    # real roots in u at an assignment of the other variables
+    u = rng.randrange(XV)
+    others = rng.sample([v for v in vs if v != u], rng.randint(0, 2))
+    a = {}
+    for e in range(rng.choice([1, 2, 2, 3]) + 1):
+        c = x_poly(rng, others, rng.choice([1, 1, 2]), 1) if others else {(): rng.randint(-4, 4)}
+        a = p_add(a, p_mul(c, {((u, e),) if e else (): 1}))
+    a = p_norm(a)
+    orders = x_orders(rng, p_vars(a) + [u])
+    # make sure some orders have u on top
+    rest = [v for v in range(XV + 1) if v != u]
+    rng.shuffle(rest)
+    orders += ["".join(map(str, rest)) or "-", "".join(map(str, rest[:2] + [u]))]
+    return xcase("ri", a, None, orders, x_vals(rng, others, algebraic=rng.choice([0, 0, 1]), unassigned=u))
+
+
+def gen_sgn(rng):
+    """sign and value at rational / algebraic points, with the tiny non-zero differences that make the library
+    fall back on the resultant-based zero test"""
+    vs = list(range(XV))
+    k = rng.random()
+    if k < 0.45:
+        i, j = rng.sample(vs, 2)
+        n = rng.choice([2, 3, 5, 7])
+        eps = 10 ** rng.choice([9, 9, 12, 7])
+        near = "r:%d,0,%d:1" % (-(n * eps + rng.choice([1, -1])), eps)      # sqrt(n +- 1/eps)
+        exact = "r:%d,0,1:1" % (-n)
+        vals = ["none"] * (XV + 1)
+        shape = rng.random()
+        if shape < 0.5:
+            a = {((i, 1),): 1, ((j, 1),): -1}                               # x_i - x_j
+            vals[i], vals[j] = exact, rng.choice([near, near, exact])
+        elif shape < 0.75:
+            a = {tuple(sorted([(i, 1), (j, 1)])): 1, (): -n}                # x_i x_j - n
+            vals[i], vals[j] = exact, rng.choice([near, exact])
+        else:
+            a = {((i, 2),): eps, ((j, 1),): -1, (): -(n * eps)}             # eps x_i^2 - x_j - n eps  at x_j tiny
+            vals[i], vals[j] = exact, rng.choice(["z:0", "q:1/%d" % (eps * 1000), "z:1"])
+        if rng.random() < 0.3:
+            c = rng.choice([2, -3])
+            a = {m: c * v for m, v in a.items()}
+        if rng.random() < 0.3:
+            l = rng.choice([v for v in vs if v not in (i, j)])
+            a = p_mul(a, {((l, 1),): 1, (): 1})
+            vals[l] = val_rational(rng)
+        return xcase("se", a, None, x_orders(rng, p_vars(a)), vals)
+    a = x_poly(rng, rng.sample(vs, rng.randint(1, 3)), rng.choice([1, 2, 3]))
+    return xcase("se", a, None, x_orders(rng, p_vars(a)), x_vals(rng, p_vars(a), algebraic=rng.choice([0, 1, 1, 2])))
+
+
 def generate(rng, tier):
-    n = 3000 if tier == "quick" else 20000
+    n = 2400 if tier == "quick" else 16000
     cases = []
     for k in range(n):
         h = Hist(rng)
         cases.append(h.build(rng.choice([4, 8, 8, 12, 12, 16, 24])))
+    for k in range(1600 if tier == "quick" else 8000):
+        cases.append(gen_xorder(rng))
     return cases
 
 
@@ -598,16 +775,23 @@ def features(case):
 
 
 def tag(case):
+    if case.startswith("xorder"):
+        return "xo:" + case.split()[1]
     f = features(case)
     return "".join(sorted(f)) or "plain"
 
 
 def nontrivial(case):
+    if case.startswith("xorder"):
+        t = case.split()
+        return len(set(t[5:5 + int(t[4])])) >= 3
     f = features(case)
     return "O" in f and ("E" in f or "H" in f or "M" in f)
 
 
 def compare(case, c_out, m_out):
+    if m_out.startswith("CHECK"):
+        return m_out.startswith("CHECK ok")
     a, b = c_out.split(), m_out.split()
     if len(a) != len(b):
         return False
@@ -618,6 +802,8 @@ def compare(case, c_out, m_out):
 
 
 def explain(case, c_out, m_out):
+    if case.startswith("xorder"):
+        return "cross-order case: the results under the listed orders (separated by |) are `%s`; verdict of the checker: %s" % (c_out, m_out)
     a, b = (c_out or "").split(";"), (m_out or "").split(";")
     cmds = case.split()
     for k, (x, y) in enumerate(zip(a[1:], b[1:])):
@@ -627,10 +813,12 @@ def explain(case, c_out, m_out):
     return "outputs differ in length"
 
 
-RULE = ("seeded histories from gen/C18.py (corpus first); distinct = distinct case line; non-trivial = the variable order "
-        "changes while objects are live and the history compares, hashes-then-mutates or adds monomials in place")
+RULE = ("seeded histories and cross-order cases from gen/C18.py (corpus first); distinct = distinct case line; non-trivial = "
+        "(history) the variable order changes while objects are live and the history compares, hashes-then-mutates or adds "
+        "monomials in place; (cross-order) the operation is run under at least 3 different orders")
 ASSUMPTIONS = ["coefficients in Z (ctx->K == lp_Z); one context; exponents < 2^20",
                "non-external operands are re-ordered explicitly (lp_polynomial_ensure_order) before an operation reads them",
                "lp_polynomial_add_monomial is issued only on objects whose coefficient arrays have size == capacity (C01's ensure_capacity finding is out of scope here)",
-               "values of gcd / resultant are taken from the implementation; only their independence of the route is checked"]
+               "histories: values of gcd / lcm / resultant / cont / pp are taken from the implementation; only their independence of the route is checked",
+               "cross-order cases: add, sub, mul, derivative, resultant (Sylvester determinant), cont*pp, sign and value at the assignment, real roots at rational assignments have exact references; gcd, lcm (up to sign, gcd*lcm = +-A*B), prem and real roots at algebraic assignments are required to agree across the orders"]
 TRUSTED = ["harness/polyio.h text I/O; the generator's own polynomial arithmetic only aims the cases, it decides no verdict"]
